@@ -110,6 +110,12 @@ class LibMap:
             if op in BUILTIN_OPS and len(args) == 2:
                 ct1 = self.mapped(em, args[1])
                 if ct1 is not None and (is_scalar(ct1) or ct1 == "vf_str"):
+                    if ct0 == "vf_str" and op == "+" and ct1 == "vf_str":
+                        # string contents are outside the subset: concatenation is an opaque callee (needs a contract)
+                        em.note_proto("vf_str_concat", "vf_str", ["vf_str", "vf_str"], "std::string operator+")
+                        em.callees["vf_str_concat"] = "std::operator+(std::string, std::string)"
+                        em.callflag = True
+                        return "vf_str_concat(%s, %s)" % (em.E(a0), em.E(args[1]))
                     if ct0 == "vf_str" and op in ("+", "+=", "<", ">"):
                         return None
                     return "%s %s %s" % (em.paren(em.E(a0)), op, em.paren(em.E(args[1])))
@@ -191,6 +197,8 @@ class LibMap:
                 return "vf_str_empty(%s)" % o
             if name in ("size", "length"):
                 return "vf_str_size(%s)" % o
+            if name.startswith("operator basic_string_view") and self.mapped(em, n) == "vf_str":
+                return o  # string -> string_view: same opaque id
             return None
         # smart pointers / atomics on a non-arrow base whose mapped type is scalar
         if not arrow and is_scalar(ct):
@@ -324,6 +332,10 @@ class LibMap:
                 if tag in em.tm.seq_insts or True:
                     em.tm.seq_insts.setdefault(tag, ct[:-1])
                     return "vf_seq_%s_%s_in(%s, %s, %s)" % (tag, name, em.E(args[0]), em.E(args[1]), em.E(args[2]))
+        if name in ("find_if", "find_if_not", "any_of", "all_of", "none_of") and len(args) == 3:
+            r = self.pred_loop(em, n, name, args)
+            if r is not None:
+                return r
         if name in ("get_pointer",) and len(args) == 1:
             return em.E(args[0])
         if name in MATH1:
@@ -433,7 +445,51 @@ class LibMap:
         return None
 
     def lambda_expr(self, em, n):
-        return em.lift_lambda(n)
+        raise Unsupported("lambda outside std::find_if/any_of/all_of/none_of")
+
+    def pred_loop(self, em, n, name, args):
+        """std::find_if / find_if_not / any_of / all_of / none_of over [b, e) of a modelled sequence with a lambda whose
+        body is a single `return expr;`: an index loop hoisted before the statement (it takes the next loop ordinal
+        and a VF_LOOP_<cname>_<k> macro like every loop of the unit; index `__i<k>`, base `__fb<k>`, count `__fn<k>`),
+        with the predicate inlined on the element `__fb<k>[__i<k>]` (captures are the enclosing variables themselves:
+        the lambda is called before anything can change them)."""
+        lam = skip(args[2])
+        while lam.get("kind") == "CXXConstructExpr" and len(lam.get("inner", [])) == 1:
+            lam = skip(lam["inner"][0])
+        if lam.get("kind") != "LambdaExpr":
+            return None
+        ct = self.mapped(em, args[0])
+        if not ct or not ct.endswith("*") or self.mapped(em, args[1]) != ct:
+            return None
+        rec = lam["inner"][0]
+        meth = [m for m in rec.get("inner", []) if m.get("kind") == "CXXMethodDecl" and m.get("name") == "operator()"]
+        body = lam["inner"][-1]
+        if len(meth) != 1 or body.get("kind") != "CompoundStmt":
+            return None
+        params = [p for p in meth[0].get("inner", []) if p.get("kind") == "ParmVarDecl"]
+        stmts = [s for s in body.get("inner", []) if s.get("kind") != "NullStmt"]
+        if len(params) != 1 or len(stmts) != 1 or stmts[0].get("kind") != "ReturnStmt" or not stmts[0].get("inner"):
+            raise Unsupported("std::%s with a lambda that is not a single return statement" % name)
+        b, e = em.E(args[0]), em.E(args[1])
+        k = em.unit.loops
+        m = em.loop_macro()
+        fb, fn, fi = "__fb%d" % k, "__fn%d" % k, "__i%d" % k
+        em.local_names[params[0]["id"]] = "(%s[%s])" % (fb, fi)
+        pre, p = em.with_pre(lambda: em.E(stmts[0]["inner"][0]))
+        if pre:
+            raise Unsupported("temporaries in the predicate of std::%s" % name)
+        stop = p if name in ("find_if", "any_of", "none_of") else "!(%s)" % p
+        em.pre.append("%s %s = %s;" % (ct, fb, b))
+        em.pre.append("size_t %s = (size_t)(%s - %s);" % (fn, em.paren(e), fb))
+        em.pre.append("size_t %s = 0;" % fi)
+        em.pre.append("while (%s < %s && !(%s))" % (fi, fn, stop))
+        em.pre.append("  " + m)
+        em.pre.append("{ %s++; }" % fi)
+        if name in ("find_if", "find_if_not"):
+            return "(%s + %s)" % (fb, fi)
+        if name == "any_of":
+            return "(%s < %s)" % (fi, fn)
+        return "(%s == %s)" % (fi, fn)
 
     # ------------------------------------------------------------------ range-for
     def for_range(self, em, n, ind):
